@@ -460,6 +460,7 @@ class Ctx:
         self.known = load_known(prop)
         self._distinct = set()
         self.quick = (tier != "thorough")
+        self.scale = 1                # raised by check_anchors when a modelled function changed
 
     # -- bookkeeping
     def count(self, case, nontrivial):
@@ -555,6 +556,58 @@ def finish(ctx, audit):
              len(ctx.disagreements), len(ctx.violations), len(ctx.known_hits), time.time() - ctx.t0))
     sys.stdout.flush()
     return rc
+
+
+# ----------------------------------------------------------------------------------------------
+# source anchors: which of the modelled Python functions changed since the model was last validated
+
+def anchor_hashes(names):
+    """(runs in an implementation worker) names like "pyflyby._importstmt:Import.replace" ->
+    sha256 of the function's AST dump (formatting/comment changes do not count)."""
+    import ast
+    import importlib
+    import inspect
+    import textwrap
+    out = {}
+    for n in names:
+        try:
+            modname, qual = n.split(":")
+            obj = importlib.import_module(modname)
+            for part in qual.split("."):
+                obj = inspect.getattr_static(obj, part) if not inspect.ismodule(obj) else getattr(obj, part)
+                obj = getattr(obj, "__func__", obj)
+                obj = getattr(obj, "fget", obj) if isinstance(obj, property) else obj
+            obj = getattr(obj, "__wrapped__", obj)
+            src = textwrap.dedent(inspect.getsource(obj))
+            out[n] = hashlib.sha256(ast.dump(ast.parse(src)).encode()).hexdigest()[:16]
+        except Exception as e:
+            out[n] = "unavailable:%s" % type(e).__name__
+    return out
+
+
+def _anchor_worker(case):
+    return anchor_hashes(case["names"])
+
+
+def check_anchors(ctx, names):
+    """Compare the modelled functions of REPO with anchors/<prop>.json (recorded when the model was last
+    validated against the code, `./check anchors Cxx`).  A change is not a violation: it multiplies the
+    exploration budget (ctx.scale) and is written into the evidence."""
+    cur = run_impl("common", "_anchor_worker", [{"names": names}], jobs=1)[0]
+    p = VERIF / "anchors" / ("%s.json" % ctx.prop)
+    rec = json.loads(p.read_text()) if p.exists() else {}
+    changed = sorted(n for n in names if rec.get(n) != cur.get(n))
+    ctx.notes["modelled_functions"] = names
+    ctx.notes["modelled_functions_changed_since_validation"] = changed
+    ctx.scale = 4 if (changed and rec) else 1
+    return cur, changed
+
+
+def record_anchors(prop, names):
+    cur = run_impl("common", "_anchor_worker", [{"names": names}], jobs=1)[0]
+    (VERIF / "anchors").mkdir(exist_ok=True)
+    (VERIF / "anchors" / ("%s.json" % prop)).write_text(json.dumps(cur, indent=1, sort_keys=True))
+    return cur
 
 
 def load_corpus(prop):
